@@ -1,4 +1,4 @@
-//! runmasm '<masm source>' [stack inputs, top first ...]
+//! runmasm [--kernel '<kernel source>'] '<masm source>' [stack inputs, top first ...]
 //! Assembles with /repo's assembler, executes with /repo's processor (DefaultHost), prints
 //! OK <outputs> | ERR <error> | PANIC <message>.  Exit code 0 / 3 / 4.
 use miden_assembly::Assembler;
@@ -6,12 +6,22 @@ use miden_processor::{execute, DefaultHost, ExecutionOptions, StackInputs};
 use std::panic;
 
 fn main() {
-    let args: Vec<String> = std::env::args().collect();
+    let mut args: Vec<String> = std::env::args().collect();
+    // optional: --kernel '<kernel module source>' as the first two arguments
+    let mut kernel: Option<String> = None;
+    if args.len() > 2 && args[1] == "--kernel" {
+        kernel = Some(args[2].clone());
+        args.drain(1..3);
+    }
     let src = args[1].clone();
     let mut vals: Vec<u64> = args[2..].iter().map(|s| s.parse::<u64>().unwrap()).collect();
     vals.reverse();
     let r = panic::catch_unwind(move || {
-        let program = match Assembler::default().compile(&src) {
+        let mut asm = Assembler::default().with_library(&miden_stdlib::StdLibrary::default()).expect("stdlib");
+        if let Some(k) = kernel {
+            asm = match asm.with_kernel(&k) { Ok(a) => a, Err(e) => return format!("KERNELERR {e}") };
+        }
+        let program = match asm.compile(&src) {
             Ok(p) => p,
             Err(e) => return format!("ASMERR {e}"),
         };
